@@ -45,6 +45,12 @@ func main() {
 		for _, id := range ids {
 			fmt.Printf("%s quick=%d thorough=%d race=%v\n", id, monitors[id].Cases("quick"), monitors[id].Cases("thorough"), monitors[id].Race)
 		}
+	case "probe":
+		if len(os.Args) < 3 {
+			usage()
+			os.Exit(2)
+		}
+		os.Exit(probeMain(os.Args[2]))
 	case "replay":
 		if len(os.Args) < 3 {
 			usage()
